@@ -63,6 +63,13 @@ def _mkframe(inp):
     return pd.DataFrame(cols)
 
 
+def _dtype_kw(inp):
+    """explicit dtypes for the columns whose type cannot be inferred from a block that holds only NA
+    (dask's documented remedy for per-block dtype inference)"""
+    d = {name: (str if kind in ("str", "strnl") else float) for name, kind, _ in inp["cols"] if kind in ("str", "strnl", "float")}
+    return {"dtype": d} if d else {}
+
+
 def _same(got, exp):
     return U.same_pandas(got.reset_index(drop=True), exp.reset_index(drop=True), sort=False, names=False)
 
@@ -91,6 +98,7 @@ def case_read_csv(ctx, inp):
         dates = [name for name, k, _ in inp["cols"] if k == "date"]
         if dates:
             kw["parse_dates"] = dates
+        kw.update(_dtype_kw(inp))
         # "\r\n" files: pandas accepts only 1-byte `lineterminator`; both readers split on "\n" and strip the "\r"
         exp = pd.read_csv(p, **kw)
         bs = inp["blocksize"]
@@ -148,6 +156,7 @@ def case_roundtrip(ctx, inp):
             with dask.config.set(scheduler="sync"):
                 files = d0.to_csv(target, **kw)
                 rkw = {"parse_dates": dates} if dates else {}
+                rkw.update(_dtype_kw(inp))
                 if single:
                     back = dd.read_csv(target, blocksize=inp.get("blocksize"), **rkw)
                     exp_files = 1
@@ -164,6 +173,10 @@ def case_roundtrip(ctx, inp):
             if [os.path.basename(f) for f in files] != ["out-%d.csv" % i for i in range(exp_files)] and exp_files <= 10:
                 ctx.fail("to_csv default file names are not <prefix><partition number>", observed=[os.path.basename(f) for f in files])
     exp = df.reset_index() if inp.get("index") else df
+    for name, kind, _ in inp["cols"]:
+        if kind in ("str", "strnl"):       # an all-None column is `object` in the source frame, `str` after the read
+            exp = exp.assign(**{name: exp[name].astype("str")})
+            got = got.assign(**{name: got[name].astype("str")})
     why = _same(got, exp)
     if why:
         ctx.fail(f"to_csv -> read_csv round trip differs: {why}", observed=got.head(10).to_dict("list"), expected=exp.head(10).to_dict("list"))
